@@ -1,5 +1,6 @@
 import Bee2V.C12.ModelVal
 import Bee2V.C12.ModelEc2
+import Bee2V.C12.ModelVal2
 import Bee2V.C01.Model.Hash
 import Bee2V.Base.Proto
 /-! C12 driver: validators of parameters and keys -/
@@ -36,13 +37,6 @@ def bignVals (P : BignParams) (no : Nat) (withHash : Bool) : BignVals :=
   let B := if withHash then leVal (beltHash (pO ++ aO ++ P.seed) ++ beltHash (pO ++ aO ++ seedInc P.seed)) else 0
   ⟨leVal pO, leVal aO, leVal (P.b.take no), leVal (P.q.take no), leVal (P.yG.take no), B⟩
 
-/-- bign96: l = 96, 24-octet fields; bign96Start: p odd ≠ 1, bit length 192, p ≡ 3 (4); a, b, yG < p;
-    bit length of q = 192, q odd -/
-def bign96StartOk (v : BignVals) : Bool :=
-  decide (v.p % 2 = 1) && decide (bitSize v.p = 192) && decide (v.p % 4 = 3) &&
-  decide (v.a < v.p) && decide (v.b < v.p) && decide (v.yG < v.p) && decide (v.q ≠ 0) &&
-  decide (bitSize v.q = 192) && decide (v.q % 2 = 1)
-
 def handleBign (is96 : Bool) (op : String) (args : List String) : String :=
   match bignParse (args.take 7) with
   | none => "bad-op"
@@ -50,11 +44,10 @@ def handleBign (is96 : Bool) (op : String) (args : List String) : String :=
     let rest := args.drop 7
     let no := if is96 then 24 else P.l / 4
     let operable := if is96 then P.l == 96 else bignIsOperable P
-    -- bign96: operable ⇒ then bign96Start (its own conditions); fold them into `operable`
     let v := bignVals P no (operable && op == "val")
     let operable := if is96 then operable && bign96StartOk v else operable
     match op, rest with
-    | "val", [] => toString (bignParamsValV drvIsPrime operable v)
+    | "val", [] => toString (if is96 then bign96ParamsVal drvIsPrime P.l v else bignParamsVal drvIsPrime operable v)
     | "pub", [pk] =>
       match parseHex pk with
       | some pk =>
@@ -102,12 +95,7 @@ def handleDstu (W : Nat) (op : String) (args : List String) : String :=
       match parseHex pt with
       | some pt =>
         if v.p0 < 160 ∨ v.p0 > 509 ∨ pt.length ≠ 2 * no then "bad-op"
-        else match dstuCreate W v with
-          | none => "502"
-          | some E =>
-            let x := leVal (pt.take no); let y := leVal (pt.drop no)
-            let nW := wordSize W (2 ^ v.p0 - 1)
-            if x < 2 ^ v.p0 ∧ y < 2 ^ v.p0 ∧ E.onCurve x y ∧ (E.mul (v.n % 2 ^ (W * nW)) (some (x, y))).isNone then "0" else "401"
+        else toString (dstuPointValV W v (leVal (pt.take no)) (leVal (pt.drop no)))
       | none => "bad-op"
     | _, _ => "bad-op"
 
@@ -129,7 +117,7 @@ def handleStb99 (op : String) (args : List String) : String :=
   | "seedval", [l, zi, di, ri] =>
     match parseNat l, natList zi, natList di, natList ri with
     | some l, some zi, some di, some ri =>
-      toString (stb99SeedValV 64 Bee2V.Gen.C12.stb99Ls l (padTo 31 zi) (padTo 18 di) (padTo 10 ri))
+      toString (stb99SeedVal 64 Bee2V.Gen.C12.stb99Ls l (padTo 31 zi) (padTo 18 di) (padTo 10 ri))
     | _, _, _, _ => "bad-op"
   | _, _ => "bad-op"
 
@@ -154,7 +142,7 @@ def handlePfok (op : String) (args : List String) : String :=
 def handlePfokSeed : List String → String
   | [l, zi, li] =>
     match parseNat l, natList zi, natList li with
-    | some l, some zi, some li => toString (pfokSeedValV 64 Bee2V.Gen.C12.pfokLs l (padTo 31 zi) (padTo 20 li))
+    | some l, some zi, some li => toString (pfokSeedVal 64 Bee2V.Gen.C12.pfokLs l (padTo 31 zi) (padTo 20 li))
     | _, _, _ => "bad-op"
   | _ => "bad-op"
 
